@@ -175,7 +175,7 @@ def run_family(ctx, cases, prop):
     else:
         texts = [c["second"][0] if c.get("second") else c["text"] for c in cases]
         res.rule = "replay"
-    from multiprocessing import Pool
+    from .common import Pool
     jobs = [(t, prop == "C06", (8 if t in set(rewrite.NUMPY_ZERO_EQ_FORMS) else True) if prop == "C02" else False) for t in texts]
     if prop in ("C01", "C07") and cases is None:
         rng3 = random.Random(ctx.seed + 17)
